@@ -8,35 +8,42 @@ extension ids (no duplicates), rtcp-mux; compatible direction; acceptable DTLS s
 offered.
 
 FULL STATEMENT (false for the current code):
-  theorem answer_valid_full (c ts nextMid hasLocal role offer a) :
-      answer c ts nextMid hasLocal role (some offer) = .ok a → validAnswer offer a = true
+  theorem answer_valid_full (c ts nextMid role offer a) :
+      answer c ts nextMid role (some offer) = .ok a → validAnswer offer a = true
 Witnesses of its negation (each replayed on the implementation and recorded as a known finding):
   `first_answer_ignores_offer_codecs`      — codecs clause: no common audio codec → the local list is answered
                                              (video: the local list always)
   `answer_clears_mids_without_bundle`      — mids clause, ≥ 2 sections and no BUNDLE group
   `legacy_sip_answer_drops_offered_mids`   — mids clause, LegacySip compatibility mode
-  `midless_offer_leaks_extmap_across_sections` — extension-id clause: the remote section is looked up
-                                             by `mid == ""`, i.e. the FIRST mid-less section
   `image_answer_format_not_offered`        — `m=image … udptl t38` answered with format `98`
-  `sticky_role_answers_offerers_own_role`  — setup clause on a re-offer that changes the DTLS role
-  `session_level_setup_is_not_read`        — setup clause, `a=setup` at session level only
+  `sticky_role_answers_offerers_own_role`  — setup clause once the DTLS transport exists (role input kept)
   `sections_with_differing_setup_get_one_role` — setup clause, sections offering different roles
   `partial_bundle_group_answered_in_full`  — BUNDLE clause: a section outside the offered group is bundled
-  (`offered_payload_type_rebound` — not a clause of the property text: an offered NUMBER bound to another codec)
-What is proved of `answer` is stated clause by clause: for ALL inputs `answer_count`, `answer_kinds_ok`
-(full: every offer, every state — `kind_synced`), `answer_setup_ok(_desc)`, `answer_setup_complements` (about
-`RtcModel.Jsep.roleOfSetup`, the role derivation the C09 driver compares with the code),
-`answer_direction_ok`, `answer_mux_ok(_desc)`, `answer_bundle_ok`, `answer_extmap_ok`,
-`answer_extmap_ids_offered`, `answer_rtx_ok`, `answer_extmap_nodup`; RELATIVE TO THE ANSWERED SECTION for
-offers with pairwise different mids `answer_rtx_ok_distinct`, `answer_ext_ok_distinct` (ids offered AND no
-duplicates); the audio intersection path `answer_audio_reinvite_pts_offered` (since the round-2 fix taken on
-first negotiations too); under named, decidable, satisfiable hypotheses `answer_direction_ok_desc`
-(`DirSynced`), `answer_aligned_partial`, `answer_valid_core_partial`, and `answer_valid_partial`:
-`validAnswer offer a` in full, where the RTX / extension / setup clauses are derived and the only
-hypothesis restating a clause is `PtsWithinOffer` — what the code does NOT ensure (witnesses above).
+  `session_level_direction_is_not_read`    — direction clause, direction given at session level only
+  (`offered_payload_type_rebound` — NOT a clause: an offered NUMBER bound to another codec; a counter)
+Since round 3 an answer section is built from the offered section AT THE SAME INDEX (`answerOrder` pairs each
+matched transceiver with that section), so every per-section theorem is about the section actually
+answered, for every offer with or without mids:
+  `answer_count`, `answer_kinds_ok`, `answer_mux_ok(_desc)`, `answer_setup_ok(_desc)`, `answer_bundle_ok`  — all inputs;
+  `answer_extmap_ok`, `answer_extmap_ids_offered` (ids AND (id, URI) bindings), `answer_extmap_nodup`,
+  `answer_ext_ok` (the extension clause, under `ExtWF` of the offered section), `answer_rtx_ok`,
+  `answer_rtx_ok_section` (the RTX clause on video sections), `answer_audio_pts_offered`,
+  `answer_audio_pts_ok` (the payload-type clause on audio sections that share a codec with the local
+  configuration, first and subsequent negotiations), `answer_section_clauses` (ext + RTX along the whole
+  answer) — all offers;
+  `answer_direction_ok` (relative to the transceiver), `answer_direction_ok_desc` under the STATE hypothesis
+  `DirSynced`; `answer_setup_complements` about `RtcModel.Jsep.roleOfSetup`;
+  `answer_aligned_partial` (mids present and not cleared), `answer_valid_core`, and `answer_valid_partial`:
+  `validAnswer offer a` in full under named hypotheses; the only one restating part of a clause is
+  `PtsWithinOffer` (video / image / audio without a common codec) — what the code does NOT ensure.
+  `RoleDerived` and `DirSynced` are hypotheses about the connection state `set_remote_description` left
+  behind; they are discharged for a first offer in the C09 model only informally (different record types).
+Theorems marked "(lemma)" in their doc comment are helpers, not obligations of the property.
 
-SDP text: see the block comment before `round_trip_partial` — the literal round-trip clause is FALSE
-(`round_trip_reorders_attributes`, `parsed_description_need_not_round_trip`); proved: `round_trip_partial`,
+SDP text: see the block comment before `round_trip_partial` — the literal round-trip clause is FALSE for
+descriptions that are not in the serialiser's attribute order (`round_trip_reorders_attributes`: foreign
+offers; since the round-3 fix NOT the descriptions the stack produces) and for parser output with a `:` in
+an unknown line type (`parsed_description_need_not_round_trip`); proved: `round_trip_partial`,
 `parse_print` (= `norm d`), `norm_only_partitions`, `second_trip_exact`, `parse_print_structural`,
 `parse_text_print` (text level), and the character-level `attr_text_roundtrip`, `decimal_roundtrip`,
 `origin_roundtrip`, `timing_roundtrip`, `mline_roundtrip`.
@@ -59,27 +66,27 @@ theorem const_defaults : RtcModel.Generated.defAudioPt = 111 ∧ RtcModel.Genera
 
 /-! ### structure of the attributes of an answer section -/
 
-/-- every attribute of an answer section is a codec attribute, an echoed header extension or the
+/-- (lemma) every attribute of an answer section is a codec attribute, an echoed header extension or the
 DTLS setup -/
-theorem capabilities_attrs (c : Cfg) (k : Kind) (remote : List Media) (hasLocal : Bool) (role : Option Bool)
-    (mid : Str) (mux : Bool) :
-    ∀ a ∈ (capabilities c k remote hasLocal role mid mux).2,
-      CodecKey a ∨ a ∈ extmapAttrs c k remote mid ∨ a ∈ setupAttrs c role := by
+theorem capabilities_attrs (c : Cfg) (k : Kind) (o : Media) (role : Option Bool) :
+    ∀ a ∈ (capabilities c k o role).2,
+      CodecKey a ∨ a ∈ extmapAttrs c k o ∨ a ∈ setupAttrs c role := by
   intro a ha
   unfold capabilities at ha
   dsimp only at ha
-  have hmem : a ∈ (codecPart c k remote hasLocal mid).2 ++ extmapAttrs c k remote mid ++ setupAttrs c role := by
+  have hmem : a ∈ setupAttrs c role ++ (codecPart c k o).2 ++ extmapAttrs c k o := by
     split at ha
     · exact ha
     · exact (List.mem_filter.mp ha).1
   rcases List.mem_append.mp hmem with h | h
   · rcases List.mem_append.mp h with h | h
-    · exact Or.inl (codecPart_codec c k remote hasLocal mid a h)
-    · exact Or.inr (Or.inl h)
-  · exact Or.inr (Or.inr h)
+    · exact Or.inr (Or.inr h)
+    · exact Or.inl (codecPart_codec c k o a h)
+  · exact Or.inr (Or.inl h)
 
-theorem extmapAttrs_key (c : Cfg) (k : Kind) (remote : List Media) (mid : Str) :
-    ∀ a ∈ extmapAttrs c k remote mid, a.key = "extmap".toList := by
+/-- (lemma) -/
+theorem extmapAttrs_key (c : Cfg) (k : Kind) (o : Media) :
+    ∀ a ∈ extmapAttrs c k o, a.key = "extmap".toList := by
   intro a ha
   unfold extmapAttrs at ha
   simp only [List.mem_append] at ha
@@ -97,15 +104,15 @@ theorem extmapAttrs_key (c : Cfg) (k : Kind) (remote : List Media) (mid : Str) :
 
 /-- **answer_setup_ok** — every `a=setup` of an answer section is `active` or `passive`: never
 `actpass` (or anything else), for all configurations, offers, roles. -/
-theorem answer_setup_ok (c : Cfg) (t : TrxView) (remote : List Media) (hasLocal : Bool) (role : Option Bool)
-    (mid : Str) (mux : Bool) :
-    ∀ a ∈ (answerSection c t remote hasLocal role mid mux).attrs, a.key = "setup".toList →
+theorem answer_setup_ok (c : Cfg) (t : TrxView) (o : Media) (role : Option Bool)
+    (mid : Str) :
+    ∀ a ∈ (answerSection c t o role mid).attrs, a.key = "setup".toList →
       a.value = some "active".toList ∨ a.value = some "passive".toList := by
   intro a ha hk
   simp only [answerSection] at ha
-  rcases capabilities_attrs c t.kind remote hasLocal role mid mux a ha with h | h | h
+  rcases capabilities_attrs c t.kind o role a ha with h | h | h
   · exact absurd hk h.not_setup
-  · have := extmapAttrs_key c t.kind remote mid a h
+  · have := extmapAttrs_key c t.kind o a h
     rw [hk] at this; exact absurd this (by decide)
   · unfold setupAttrs at h
     split at h
@@ -143,8 +150,8 @@ theorem answer_setup_complements (v : Str) :
 /-- **answer_direction_ok** — the answered direction is compatible with the transceiver's direction,
 which `set_remote_description(offer)` has just set to the offered direction of that section;
 downgrades (no sender) only ever remove a sending half. All cases. -/
-theorem answer_direction_ok (t : TrxView) (remote : List Media) (mid : Str) :
-    dirCompatible t.dir (finalDirection t remote mid) = true := by
+theorem answer_direction_ok (t : TrxView) (o : Media) :
+    dirCompatible t.dir (finalDirection t o) = true := by
   unfold finalDirection
   dsimp only
   split <;> (generalize t.dir = d; cases d <;> rfl)
@@ -152,21 +159,21 @@ theorem answer_direction_ok (t : TrxView) (remote : List Media) (mid : Str) :
 /-! ### rtcp-mux, BUNDLE -/
 
 /-- **answer_mux_ok** — `a=rtcp-mux` appears in an answer section only if the offer's section had it. -/
-theorem answer_mux_ok (c : Cfg) (t : TrxView) (remote : List Media) (hasLocal : Bool) (role : Option Bool)
-    (mid : Str) :
-    hasAttr (answerSection c t remote hasLocal role mid false) "rtcp-mux" = false := by
+theorem answer_mux_ok (c : Cfg) (t : TrxView) (o : Media) (role : Option Bool)
+    (mid : Str) (hno : secHasMux o = false) :
+    hasAttr (answerSection c t o role mid) "rtcp-mux" = false := by
   unfold hasAttr answerSection capabilities
   dsimp only
-  rw [if_neg (by decide), List.any_eq_false]
+  rw [hno, if_neg (by decide), List.any_eq_false]
   intro a ha
   have hne : ¬ a.key = "rtcp-mux".toList := bne_iff_ne.mp (List.mem_filter.mp ha).2
   exact decide_eq_false hne |>.symm ▸ (by simp)
 
 /-- **answer_bundle_ok** — a BUNDLE group is emitted only when the offer carried one (and never in
 LegacySip mode), and it lists exactly the mids of the answered sections. -/
-theorem answer_bundle_ok (c : Cfg) (ts : List TrxView) (nextMid : Nat) (hasLocal : Bool) (role : Option Bool)
+theorem answer_bundle_ok (c : Cfg) (ts : List TrxView) (nextMid : Nat) (role : Option Bool)
     (offer : Desc) (a : Answer) (g : Str)
-    (h : answer c ts nextMid hasLocal role (some offer) = .ok a) (hg : a.group = some g) :
+    (h : answer c ts nextMid role (some offer) = .ok a) (hg : a.group = some g) :
     offeredBundle offer.session.attrs = true ∧ c.legacySip = false := by
   unfold answer at h
   by_cases hts : ts.isEmpty = true
@@ -190,72 +197,38 @@ theorem answer_bundle_ok (c : Cfg) (ts : List TrxView) (nextMid : Nat) (hasLocal
 /-- **answer_count** — an answer has exactly one section per section of the offer, in the offer's order
 (one `answerSection` per entry of the section → transceiver matching, which has one entry per offered
 section). -/
-theorem answer_count (c : Cfg) (ts : List TrxView) (nextMid : Nat) (hasLocal : Bool) (role : Option Bool)
+theorem answer_count (c : Cfg) (ts : List TrxView) (nextMid : Nat) (role : Option Bool)
     (offer : Desc) (a : Answer)
-    (h : answer c ts nextMid hasLocal role (some offer) = .ok a) :
+    (h : answer c ts nextMid role (some offer) = .ok a) :
     a.sections.length = offer.media.length := by
-  obtain ⟨order, ho, hsec, _⟩ := answer_sections c ts nextMid hasLocal role offer a h
+  obtain ⟨order, ho, hsec, _⟩ := answer_sections c ts nextMid role offer a h
   have hl := Answer.answerOrder_length _ _ _ _ _ ho
   have hv := Answer.answerOrder_valid _ _ _ _ _ (by intro p hp; cases hp) ho
-  have hb := buildList_length c ts offer.media hasLocal role order nextMid hv
+  have hb := buildList_length c ts role order nextMid hv
   simp only [List.length_nil, Nat.zero_add] at hl
   rcases hsec with hs | hs <;> rw [hs] <;> simp [hb, hl]
 
 /-! ### header extensions -/
 
-/-- the id `get_remote_extmap_id` returns is the first token of an `a=extmap` value of the remote
-section carrying that mid -/
-theorem remoteExtId_go_mem (attrs : List Attr) (uri id : Str) (h : remoteExtId.go uri attrs = some id) :
-    ∃ v, (⟨"extmap".toList, some v⟩ : Attr) ∈ attrs ∧ (splitWs v).head? = some id := by
-  induction attrs with
-  | nil => simp [remoteExtId.go] at h
-  | cons a rest ih =>
-    unfold remoteExtId.go at h
-    split at h
-    · obtain ⟨v, hv, ht⟩ := ih h
-      exact ⟨v, List.mem_cons_of_mem _ hv, ht⟩
-    · rename_i hk
-      split at h
-      · cases h
-      · rename_i v hav
-        split at h
-        · split at h
-          · rename_i t ts hs
-            simp only [Option.some.injEq] at h
-            subst h
-            refine ⟨v, ?_, by simp [hs]⟩
-            have hkey : a.key = "extmap".toList := by simpa using hk
-            have : a = ⟨"extmap".toList, some v⟩ := by cases a; simp_all
-            rw [this]; exact List.mem_cons_self
-          · obtain ⟨v', hv, ht⟩ := ih h
-            exact ⟨v', List.mem_cons_of_mem _ hv, ht⟩
-        · obtain ⟨v', hv, ht⟩ := ih h
-          exact ⟨v', List.mem_cons_of_mem _ hv, ht⟩
-
 /-- **answer_extmap_ok** — every header extension of an answer section is an echo: its attribute is
-`extAttr id uri` where `id` is the id token of an `a=extmap` line of the remote section that
-`find(|s| s.mid == mid)` selects (for offers whose sections carry distinct non-empty mids that is the
-section being answered; for mid-less offers it is the FIRST mid-less section — the witness below). -/
-theorem answer_extmap_ok (c : Cfg) (t : TrxView) (remote : List Media) (hasLocal : Bool) (role : Option Bool)
-    (mid : Str) (mux : Bool) :
-    ∀ a ∈ (answerSection c t remote hasLocal role mid mux).attrs, a.key = "extmap".toList →
-      ∃ r id uri v, remote.find? (fun s => s.mid = mid) = some r ∧ a = extAttr id uri ∧
-        (⟨"extmap".toList, some v⟩ : Attr) ∈ r.attrs ∧ (splitWs v).head? = some id := by
+`extAttr id uri` where the OFFERED SECTION IT ANSWERS (the remote section at the same index — round-3
+`fix:`) has an `a=extmap` line whose first token is `id` and whose second token is `uri` (round-3 `fix:`
+exact URI match). All offers (with or without mids), configurations, states. -/
+theorem answer_extmap_ok (c : Cfg) (t : TrxView) (o : Media) (role : Option Bool)
+    (mid : Str) :
+    ∀ a ∈ (answerSection c t o role mid).attrs, a.key = "extmap".toList →
+      ∃ id uri v rest, a = extAttr id uri ∧
+        (⟨"extmap".toList, some v⟩ : Attr) ∈ o.attrs ∧ splitWs v = id :: uri :: rest := by
   intro a ha hk
   simp only [answerSection] at ha
-  rcases capabilities_attrs c t.kind remote hasLocal role mid mux a ha with h | h | h
+  rcases capabilities_attrs c t.kind o role a ha with h | h | h
   · exact absurd hk h.not_extmap
   · -- one of the four lookups
-    have key : ∀ uri id, remoteExtId remote mid uri = some id →
-        ∃ r v, remote.find? (fun s => s.mid = mid) = some r ∧
-          (⟨"extmap".toList, some v⟩ : Attr) ∈ r.attrs ∧ (splitWs v).head? = some id := by
+    have key : ∀ uri id, remoteExtId o uri = some id →
+        ∃ v rest, (⟨"extmap".toList, some v⟩ : Attr) ∈ o.attrs ∧ splitWs v = id :: uri :: rest := by
       intro uri id hid
       unfold remoteExtId at hid
-      split at hid
-      · cases hid
-      · rename_i r hr
-        obtain ⟨v, hv, ht⟩ := remoteExtId_go_mem r.attrs uri id hid
-        exact ⟨r, v, hr, hv, ht⟩
+      exact remoteExtId_go_spec o.attrs uri id hid
     unfold extmapAttrs at h
     simp only [List.mem_append] at h
     rcases h with ((h | h) | h)
@@ -265,29 +238,29 @@ theorem answer_extmap_ok (c : Cfg) (t : TrxView) (remote : List Media) (hasLocal
         · split at h
           · rename_i id hid
             simp only [List.mem_singleton] at h
-            obtain ⟨r, v, hr, hv, ht⟩ := key _ _ hid
-            exact ⟨r, id, RID_URI, v, hr, h, hv, ht⟩
+            obtain ⟨v, r, hv, ht⟩ := key _ _ hid
+            exact ⟨id, RID_URI, v, r, h, hv, ht⟩
           · cases h
         · split at h
           · rename_i id hid
             simp only [List.mem_singleton] at h
-            obtain ⟨r, v, hr, hv, ht⟩ := key _ _ hid
-            exact ⟨r, id, RRID_URI, v, hr, h, hv, ht⟩
+            obtain ⟨v, r, hv, ht⟩ := key _ _ hid
+            exact ⟨id, RRID_URI, v, r, h, hv, ht⟩
           · cases h
       · cases h
     · split at h
       · rename_i id hid
         simp only [List.mem_singleton] at h
-        obtain ⟨r, v, hr, hv, ht⟩ := key _ _ hid
-        exact ⟨r, id, ABS_URI, v, hr, h, hv, ht⟩
+        obtain ⟨v, r, hv, ht⟩ := key _ _ hid
+        exact ⟨id, ABS_URI, v, r, h, hv, ht⟩
       · cases h
     · split at h
       · cases h
       · split at h
         · rename_i id hid
           simp only [List.mem_singleton] at h
-          obtain ⟨r, v, hr, hv, ht⟩ := key _ _ hid
-          exact ⟨r, id, MID_URI, v, hr, h, hv, ht⟩
+          obtain ⟨v, r, hv, ht⟩ := key _ _ hid
+          exact ⟨id, MID_URI, v, r, h, hv, ht⟩
         · cases h
   · unfold setupAttrs at h
     split at h
@@ -296,43 +269,80 @@ theorem answer_extmap_ok (c : Cfg) (t : TrxView) (remote : List Media) (hasLocal
       simp [attr] at hk
     · cases h
 
-/-- **answer_extmap_ids_offered** — in terms of the property's `extIds`: every extension id of an
-answer section is an extension id of the remote section `find(|s| s.mid == mid)` selects. All inputs. -/
-theorem answer_extmap_ids_offered (c : Cfg) (t : TrxView) (remote : List Media) (hasLocal : Bool) (role : Option Bool)
-    (mid : Str) (mux : Bool) :
-    ∀ i ∈ extIds (answerSection c t remote hasLocal role mid mux),
-      ∃ r, remote.find? (fun s => s.mid = mid) = some r ∧ i ∈ extIds r := by
-  intro i hi
-  unfold extIds at hi
-  obtain ⟨v, hv, hhead⟩ := List.mem_filterMap.mp hi
-  obtain ⟨a, ha, hk, hval⟩ := (mem_attrVals _ "extmap" v).mp hv
-  obtain ⟨r, id, uri, v', hr, hform, hmem, hid⟩ := answer_extmap_ok c t remote hasLocal role mid mux a ha hk
-  have hidtok : IsTok id := by
-    apply splitWs_tokens v'
-    cases hs : splitWs v' with
-    | nil => simp [hs] at hid
-    | cons x xs => simp only [hs, List.head?_cons, Option.some.injEq] at hid; subst hid; simp
-  have hv_eq : v = id ++ sp ++ uri := by
+/-- (lemma) `split_whitespace` of two tokens joined by one space -/
+theorem splitWs_two (a b : Str) (ha : IsTok a) (hb : IsTok b) : splitWs (a ++ sp ++ b) = [a, b] := by
+  have e : a ++ sp ++ b = join [' '] [a, b] := by simp [join, sp]
+  rw [e]
+  unfold splitWs
+  have := splitWsAux_join [a, b] [] (by
+    intro t ht
+    simp only [List.mem_cons, List.mem_nil_iff, or_false] at ht
+    rcases ht with rfl | rfl <;> assumption)
+  simpa using this
+
+/-- **answer_extmap_ids_offered** — every extension id of an answer section is an extension id of the
+offered section it answers, AND it is bound to the URI the offer bound it to (`extPairs`). All inputs. -/
+theorem answer_extmap_ids_offered (c : Cfg) (t : TrxView) (o : Media) (role : Option Bool)
+    (mid : Str) :
+    (∀ i ∈ extIds (answerSection c t o role mid), i ∈ extIds o) ∧
+    (∀ p ∈ extPairs (answerSection c t o role mid), p ∈ extPairs o) := by
+  -- every extmap value of the answer is `id ++ " " ++ uri` for an offered line `id uri …`
+  have key : ∀ v ∈ attrVals (answerSection c t o role mid).attrs "extmap",
+      ∃ id uri v' rest, v = id ++ sp ++ uri ∧ v' ∈ attrVals o.attrs "extmap" ∧ splitWs v' = id :: uri :: rest := by
+    intro v hv
+    obtain ⟨a, ha, hk, hval⟩ := (mem_attrVals _ "extmap" v).mp hv
+    obtain ⟨id, uri, v', rest, hform, hmem, hs⟩ := answer_extmap_ok c t o role mid a ha hk
+    refine ⟨id, uri, v', rest, ?_, (mem_attrVals _ "extmap" v').mpr ⟨_, hmem, rfl, rfl⟩, hs⟩
     rw [hform] at hval
     simp only [extAttr, attr, Option.some.injEq] at hval
     exact hval.symm
-  have : i = id := by
-    rw [hv_eq, extAttr_id id uri hidtok] at hhead
-    injection hhead with e; exact e.symm
-  subst this
-  refine ⟨r, hr, ?_⟩
-  unfold extIds
-  exact List.mem_filterMap.mpr ⟨v', (mem_attrVals _ "extmap" v').mpr ⟨_, hmem, rfl, rfl⟩, hid⟩
+  have toks : ∀ (v' : Str) (id uri : Str) (rest : List Str), splitWs v' = id :: uri :: rest → IsTok id ∧ IsTok uri := by
+    intro v' id uri rest hs
+    exact ⟨splitWs_tokens v' id (by rw [hs]; simp), splitWs_tokens v' uri (by rw [hs]; simp)⟩
+  refine ⟨?_, ?_⟩
+  · intro i hi
+    unfold extIds at hi ⊢
+    obtain ⟨v, hv, hhead⟩ := List.mem_filterMap.mp hi
+    obtain ⟨id, uri, v', rest, hveq, hv', hs⟩ := key v hv
+    have ⟨hidtok, _⟩ := toks v' id uri rest hs
+    rw [hveq, extAttr_id id uri hidtok] at hhead
+    injection hhead with e
+    subst e
+    exact List.mem_filterMap.mpr ⟨v', hv', by rw [hs]; rfl⟩
+  · intro p hp
+    unfold extPairs at hp ⊢
+    obtain ⟨v, hv, hpair⟩ := List.mem_filterMap.mp hp
+    obtain ⟨id, uri, v', rest, hveq, hv', hs⟩ := key v hv
+    have ⟨hidtok, hutok⟩ := toks v' id uri rest hs
+    have hsplit : splitWs (id ++ sp ++ uri) = [id, uri] := splitWs_two id uri hidtok hutok
+    rw [hveq, hsplit] at hpair
+    simp only [Option.some.injEq] at hpair
+    subst hpair
+    exact List.mem_filterMap.mpr ⟨v', hv', by rw [hs]⟩
 
-/-- **answer_extmap_nodup** — no duplicate extension ids: when the remote section that is consulted is
-well-formed for the echo (`ExtWF`: its own ids pairwise distinct, no `a=extmap` line mentioning two of
-the four URIs the answerer looks for — decidable), the extension ids of the answer section are pairwise
-distinct. Together with `answer_extmap_ids_offered` this is the property's extension clause relative to
-the consulted section. -/
-theorem answer_extmap_nodup (c : Cfg) (t : TrxView) (remote : List Media) (hasLocal : Bool) (role : Option Bool)
-    (mid : Str) (mux : Bool) (r : Media) (hr : remote.find? (fun s => s.mid = mid) = some r) (hwf : ExtWF r) :
-    (extIds (answerSection c t remote hasLocal role mid mux)).Nodup :=
-  extIds_answerSection_nodup c t remote hasLocal role mid mux r hr hwf
+/-- **answer_extmap_nodup** — no duplicate extension ids: when the offered section is well-formed for the
+echo (`ExtWF`: its own ids pairwise distinct — decidable), the extension ids of the answer section are
+pairwise distinct. -/
+theorem answer_extmap_nodup (c : Cfg) (t : TrxView) (o : Media) (role : Option Bool)
+    (mid : Str) (hwf : ExtWF o) :
+    (extIds (answerSection c t o role mid)).Nodup :=
+  extIds_answerSection_nodup c t o role mid hwf
+
+/-- **answer_ext_ok** — the property's extension clause ("only offered ids" — each bound to the URI the
+offer bound it to — "no duplicate ids") for the section an answer section answers. Every offer, with or
+without mids. -/
+theorem answer_ext_ok (c : Cfg) (t : TrxView) (o : Media) (role : Option Bool) (mid : Str) (hwf : ExtWF o) :
+    secExtOk o (answerSection c t o role mid) = true := by
+  obtain ⟨hids, hpairs⟩ := answer_extmap_ids_offered c t o role mid
+  unfold secExtOk
+  rw [Bool.and_eq_true, Bool.and_eq_true]
+  refine ⟨⟨?_, ?_⟩, decide_eq_true (answer_extmap_nodup c t o role mid hwf)⟩
+  · rw [List.all_eq_true]
+    intro i hi
+    simpa using hids i hi
+  · rw [List.all_eq_true]
+    intro p hp
+    simpa using hpairs p hp
 
 /-! ### witnesses: the full statement is false -/
 
@@ -358,19 +368,20 @@ def pcmuActive : Media :=
     dir := .sendrecv, connection := none,
     attrs := [flag "rtcp-mux", attr "rtpmap" "0 PCMU/8000".toList, attr "setup" "active".toList] }
 
-/-- **Witness (subsequent negotiations)** — the role is cached by the first negotiation; a re-offer in
-which the offerer takes the role the answerer holds is answered with that same role. -/
+/-- **Witness (subsequent negotiations)** — once the DTLS transport exists the role is fixed (round-3 fix:
+until then it follows the latest description); a re-offer in which the offerer takes the role the
+answerer holds is then answered with that same role. The role is an INPUT of this model (`some true`). -/
 theorem sticky_role_answers_offerers_own_role :
     setupCompatible (some "active".toList) (setupValue (some true)) = false ∧
     setupCompatible (some "passive".toList) (setupValue (some false)) = false ∧
-    (∃ a, answer cfgDefault [trx .audio "0"] 1 true (some true) (some (mkOffer [] [pcmuActive])) = .ok a ∧
+    (∃ a, answer cfgDefault [trx .audio "0"] 1 (some true) (some (mkOffer [] [pcmuActive])) = .ok a ∧
           zipAll secSetupOk [pcmuActive] a.sections = false) := by
   refine ⟨by decide, by decide, _, rfl, by decide⟩
 
-/-- **first_answer_ignores_offer_codecs** — a PCMU-only offer is answered with `111 opus` on a first
-negotiation: the answer lists the locally configured codecs whatever the offer contained. -/
+/-- **first_answer_ignores_offer_codecs** — offer and local configuration share no codec (PCMU-only offer,
+default opus configuration): the section is not rejected, the answer lists the local `111 opus`. -/
 theorem first_answer_ignores_offer_codecs :
-    ∃ a, answer cfgDefault [trx .audio "0"] 1 false (some false) (some (mkOffer [] [pcmuOnly "0"])) = .ok a ∧
+    ∃ a, answer cfgDefault [trx .audio "0"] 1 (some false) (some (mkOffer [] [pcmuOnly "0"])) = .ok a ∧
       (a.sections.map (·.formats)) = [["111".toList]] ∧
       validAnswer (mkOffer [] [pcmuOnly "0"]) a = false := by
   refine ⟨_, rfl, by decide, by decide⟩
@@ -378,7 +389,7 @@ theorem first_answer_ignores_offer_codecs :
 /-- **answer_clears_mids_without_bundle** — two sections with mids, no BUNDLE group, Standard mode:
 the answer carries no mids at all. -/
 theorem answer_clears_mids_without_bundle :
-    ∃ a, answer { cfgDefault with audio := [⟨0, "PCMU".toList, 8000, 1, none, []⟩] } [trx .audio "0", trx .video "1"] 2 false (some false)
+    ∃ a, answer { cfgDefault with audio := [⟨0, "PCMU".toList, 8000, 1, none, []⟩] } [trx .audio "0", trx .video "1"] 2 (some false)
         (some (mkOffer [] [pcmuOnly "0", vp8Sec "1" []])) = .ok a ∧
       a.sections.map (·.mid) = [[], []] ∧
       zipAll secAligned [pcmuOnly "0", vp8Sec "1" []] a.sections = false := by
@@ -387,27 +398,26 @@ theorem answer_clears_mids_without_bundle :
 /-- **legacy_sip_answer_drops_offered_mids** — in LegacySip compatibility mode even a single-section
 offer with a mid is answered without it. -/
 theorem legacy_sip_answer_drops_offered_mids :
-    ∃ a, answer { cfgDefault with legacySip := true, audio := [⟨0, "PCMU".toList, 8000, 1, none, []⟩] } [trx .audio "0"] 1 false (some false)
+    ∃ a, answer { cfgDefault with legacySip := true, audio := [⟨0, "PCMU".toList, 8000, 1, none, []⟩] } [trx .audio "0"] 1 (some false)
         (some (mkOffer [] [pcmuOnly "0"])) = .ok a ∧
       a.sections.map (·.mid) = [[]] ∧ zipAll secAligned [pcmuOnly "0"] a.sections = false := by
   refine ⟨_, rfl, by decide, by decide⟩
 
-/-- **midless_offer_leaks_extmap_across_sections** — SIP-style offer without mids, audio (abs-send-time
-id 3) + video (no extensions): the video answer echoes the AUDIO section's extension, because the
-remote section is looked up by `mid == ""`. -/
-theorem midless_offer_leaks_extmap_across_sections :
+/-- since the round-3 `fix:` (remote section by index) a SIP-style offer without mids no longer leaks the
+audio section's extension into the video answer (round-2 witness `midless_offer_leaks_extmap_across_sections`) -/
+example :
     let au := { pcmuOnly "" with attrs := (pcmuOnly "").attrs ++ [extAttr "3".toList ABS_URI] }
     ∃ a, answer { cfgDefault with audio := [⟨0, "PCMU".toList, 8000, 1, none, []⟩] }
-          [trx .audio "", trx .video ""] 0 false (some false)
+          [trx .audio "", trx .video ""] 0 (some false)
           (some (mkOffer [] [au, vp8Sec "" []])) = .ok a ∧
-      zipAll secExtOk [au, vp8Sec "" []] a.sections = false := by
+      zipAll secExtOk [au, vp8Sec "" []] a.sections = true := by
   refine ⟨_, rfl, by decide⟩
 
 /-- **image_answer_format_not_offered** — `m=image … udptl t38` is answered with format `98`. -/
 theorem image_answer_format_not_offered :
     let img : Media := { kind := .image, mid := "0".toList, port := 9, proto := "udptl".toList, formats := ["t38".toList],
                          dir := .sendrecv, connection := none, attrs := [] }
-    ∃ a, answer cfgDefault [trx .image "0"] 1 false none (some (mkOffer [] [img])) = .ok a ∧
+    ∃ a, answer cfgDefault [trx .image "0"] 1 none (some (mkOffer [] [img])) = .ok a ∧
       zipAll secPtsOk [img] a.sections = false := by
   refine ⟨_, rfl, by decide⟩
 
@@ -433,182 +443,156 @@ example : ExtWF vp8RtxSec ∧ ExtWF opusSec := by decide
 /-- non-vacuity of the positive theorems: a WebRTC offer (BUNDLE, opus + VP8 with RTX, extensions)
 whose codecs the default configuration also has gets a valid answer in the model. -/
 example :
-    ∃ a, answer cfgDefault [trx .audio "0", trx .video "1"] 2 false (some false) (some bundleOffer) = .ok a ∧
+    ∃ a, answer cfgDefault [trx .audio "0", trx .video "1"] 2 (some false) (some bundleOffer) = .ok a ∧
       validAnswer bundleOffer a = true ∧ a.group = some "BUNDLE 0 1".toList := by
   refine ⟨_, rfl, by decide, by decide⟩
 
 /-! ### description level: the clauses along the whole answer -/
 
-/-- every section of an answer is an `answerSection` (up to the cleared mid) -/
-theorem answer_section_form (c : Cfg) (ts : List TrxView) (nextMid : Nat) (hasLocal : Bool) (role : Option Bool)
-    (offer : Desc) (a : Answer) (h : answer c ts nextMid hasLocal role (some offer) = .ok a) :
-    ∀ s ∈ a.sections, ∃ t mid mux, s.attrs = (answerSection c t offer.media hasLocal role mid mux).attrs ∧
-      s.dir = (answerSection c t offer.media hasLocal role mid mux).dir ∧ s.kind = t.kind := by
-  obtain ⟨order, _, hsec, _⟩ := answer_sections c ts nextMid hasLocal role offer a h
+/-- (lemma) every section of an answer is an `answerSection` (up to the cleared mid) -/
+theorem answer_section_form (c : Cfg) (ts : List TrxView) (nextMid : Nat) (role : Option Bool)
+    (offer : Desc) (a : Answer) (h : answer c ts nextMid role (some offer) = .ok a) :
+    ∀ s ∈ a.sections, ∃ t o mid, s.attrs = (answerSection c t o role mid).attrs ∧
+      s.dir = (answerSection c t o role mid).dir ∧ s.kind = t.kind := by
+  obtain ⟨order, _, hsec, _⟩ := answer_sections c ts nextMid role offer a h
   intro s hs
   rcases hsec with he | he
   · rw [he] at hs
-    obtain ⟨t, mid, mux, rfl⟩ := buildList_mem _ _ _ _ _ _ _ s hs
-    exact ⟨t, mid, mux, rfl, rfl, rfl⟩
+    obtain ⟨t, o, mid, rfl⟩ := buildList_mem _ _ _ _ _ s hs
+    exact ⟨t, o, mid, rfl, rfl, rfl⟩
   · rw [he] at hs
     obtain ⟨s', hs', rfl⟩ := List.mem_map.mp hs
-    obtain ⟨t, mid, mux, rfl⟩ := buildList_mem _ _ _ _ _ _ _ s' hs'
-    exact ⟨t, mid, mux, rfl, rfl, rfl⟩
+    obtain ⟨t, o, mid, rfl⟩ := buildList_mem _ _ _ _ _ s' hs'
+    exact ⟨t, o, mid, rfl, rfl, rfl⟩
 
 /-- **answer_setup_ok_desc** — in every answer the model can produce, every `a=setup` is `active` or
 `passive` (never `actpass`). -/
-theorem answer_setup_ok_desc (c : Cfg) (ts : List TrxView) (nextMid : Nat) (hasLocal : Bool) (role : Option Bool)
-    (offer : Desc) (a : Answer) (h : answer c ts nextMid hasLocal role (some offer) = .ok a) :
+theorem answer_setup_ok_desc (c : Cfg) (ts : List TrxView) (nextMid : Nat) (role : Option Bool)
+    (offer : Desc) (a : Answer) (h : answer c ts nextMid role (some offer) = .ok a) :
     ∀ s ∈ a.sections, ∀ x ∈ s.attrs, x.key = "setup".toList →
       x.value = some "active".toList ∨ x.value = some "passive".toList := by
   intro s hs x hx hk
-  obtain ⟨t, mid, mux, hattrs, _, _⟩ := answer_section_form c ts nextMid hasLocal role offer a h s hs
+  obtain ⟨t, o, mid, hattrs, _, _⟩ := answer_section_form c ts nextMid role offer a h s hs
   rw [hattrs] at hx
-  exact answer_setup_ok c t offer.media hasLocal role mid mux x hx hk
+  exact answer_setup_ok c t o role mid x hx hk
 
-/-- **answer_mux_ok_desc** — along the whole answer, section by section in the offer's order:
-`a=rtcp-mux` only where the offered section had it. All offers, configurations, states. -/
-theorem answer_mux_ok_desc (c : Cfg) (ts : List TrxView) (nextMid : Nat) (hasLocal : Bool) (role : Option Bool)
-    (offer : Desc) (a : Answer) (h : answer c ts nextMid hasLocal role (some offer) = .ok a) :
-    zipAll secMuxOk offer.media a.sections = true := by
-  obtain ⟨order, ho, hsec, _⟩ := answer_sections c ts nextMid hasLocal role offer a h
+/-- (lemma) a clause that holds for `answerSection c t o role mid` whenever `t` matches `o` holds along the
+whole answer, section by section in the offer's order — also when the mids are cleared afterwards, for
+clauses that do not read the answer's mid. -/
+theorem clause_along_answer (P : Media → Media → Bool) (c : Cfg) (ts : List TrxView) (nextMid : Nat)
+    (role : Option Bool) (offer : Desc) (a : Answer) (h : answer c ts nextMid role (some offer) = .ok a)
+    (hmidfree : ∀ o s, P o { s with mid := [] } = P o s)
+    (hP : ∀ o ∈ offer.media, ∀ t ∈ ts, Matches o t → ∀ mid, (∀ m, t.mid = some m → mid = m) →
+      P o (answerSection c t o role mid) = true) :
+    zipAll P offer.media a.sections = true := by
+  obtain ⟨order, ho, hsec, _⟩ := answer_sections c ts nextMid role offer a h
   obtain ⟨tail, ht, hal⟩ := answerOrder_matches ts offer.media [] [] order ho
   simp only [List.reverse_nil, List.nil_append] at ht
   subst ht
   have hv := Answer.answerOrder_valid _ _ _ _ _ (by intro p hp; cases hp) ho
-  have hbl : zipAll secMuxOk offer.media (buildList c ts offer.media hasLocal role order nextMid) = true := by
-    apply zipAll_buildList _ _ _ _ _ secMuxOk _ _ _ hv
+  have hbl : zipAll P offer.media (buildList c ts role order nextMid) = true := by
+    apply zipAll_buildList _ _ _ P _ _ _ hv
     refine hal.imp ?_
-    intro o p _ _ ⟨hflag, _⟩ t mid _ _
-    unfold secMuxOk
-    cases hp : p.2 with
-    | false =>
-      rw [answer_mux_ok c t offer.media hasLocal role mid]
-      rfl
-    | true =>
-      rw [hp] at hflag
-      have e : hasAttr o "rtcp-mux" = true := hflag.symm
-      rw [e, Bool.or_true]
+    intro o p ho' _ ⟨hpo, t', hget', hm⟩ t mid hget hmid
+    rw [hget'] at hget; injection hget with e; subst e
+    rw [hpo]
+    exact hP o ho' t' (mem_of_getElem_some hget') hm mid hmid
   rcases hsec with he | he
   · rw [he]; exact hbl
-  · rw [he, zipAll_map_right secMuxOk (fun s => { s with mid := [] }) (fun o s => rfl)]; exact hbl
+  · rw [he, zipAll_map_right P (fun s => { s with mid := [] }) hmidfree]; exact hbl
+
+/-- **answer_mux_ok_desc** — along the whole answer, section by section in the offer's order:
+`a=rtcp-mux` only where the offered section had it. All offers, configurations, states. -/
+theorem answer_mux_ok_desc (c : Cfg) (ts : List TrxView) (nextMid : Nat) (role : Option Bool)
+    (offer : Desc) (a : Answer) (h : answer c ts nextMid role (some offer) = .ok a) :
+    zipAll secMuxOk offer.media a.sections = true := by
+  apply clause_along_answer secMuxOk c ts nextMid role offer a h (fun o s => rfl)
+  intro o _ t _ _ mid _
+  unfold secMuxOk
+  cases hm : secHasMux o with
+  | false => rw [answer_mux_ok c t o role mid hm]; rfl
+  | true =>
+    have e : hasAttr o "rtcp-mux" = true := hm
+    rw [e, Bool.or_true]
 
 /-- every transceiver that an offered section can be matched to has been given that section's direction
 (what `set_remote_description(offer)` establishes for offers whose sections carry distinct mids) -/
 def DirSynced (ts : List TrxView) (offer : Desc) : Prop :=
   ∀ t ∈ ts, ∀ o ∈ offer.media, Matches o t → t.dir = o.dir
 
-/-- … and is of that section's kind -/
-def KindSynced (ts : List TrxView) (offer : Desc) : Prop :=
-  ∀ t ∈ ts, ∀ o ∈ offer.media, Matches o t → t.kind = o.kind
-
-/-- since the round-2 `fix:` ("create_answer matches a transceiver by MID only if it is of the section's
-kind") the matching itself guarantees the kind — `KindSynced` is no longer a hypothesis of any theorem.
-Before it, a transceiver carrying a locally assigned mid equal to an offered mid was matched whatever its
-kind: `legacy_mid_match_ignores_kind`. -/
-theorem kind_synced (ts : List TrxView) (offer : Desc) : KindSynced ts offer := by
-  intro t _ o _ hm
+/-- (lemma) the matching guarantees the kind in both of its stages (since the round-2 `fix:`
+"create_answer matches a transceiver by MID only if it is of the section's kind") -/
+theorem matches_kind {o : Media} {t : TrxView} (hm : Matches o t) : t.kind = o.kind := by
   rcases hm with ⟨_, _, hk⟩ | ⟨_, hk⟩ <;> exact hk
 
 /-- **answer_direction_ok_desc** — along the whole answer: every answered direction is compatible with
 the offered one, when the matched transceivers carry the offered directions (`DirSynced`). -/
-theorem answer_direction_ok_desc (c : Cfg) (ts : List TrxView) (nextMid : Nat) (hasLocal : Bool) (role : Option Bool)
-    (offer : Desc) (a : Answer) (h : answer c ts nextMid hasLocal role (some offer) = .ok a)
+theorem answer_direction_ok_desc (c : Cfg) (ts : List TrxView) (nextMid : Nat) (role : Option Bool)
+    (offer : Desc) (a : Answer) (h : answer c ts nextMid role (some offer) = .ok a)
     (hd : DirSynced ts offer) :
     zipAll secDirOk offer.media a.sections = true := by
-  obtain ⟨order, ho, hsec, _⟩ := answer_sections c ts nextMid hasLocal role offer a h
-  obtain ⟨tail, ht, hal⟩ := answerOrder_matches ts offer.media [] [] order ho
-  simp only [List.reverse_nil, List.nil_append] at ht
-  subst ht
-  have hv := Answer.answerOrder_valid _ _ _ _ _ (by intro p hp; cases hp) ho
-  have hbl : zipAll secDirOk offer.media (buildList c ts offer.media hasLocal role order nextMid) = true := by
-    apply zipAll_buildList _ _ _ _ _ secDirOk _ _ _ hv
-    refine hal.imp ?_
-    intro o p ho' _ ⟨_, t', hget', hm⟩ t mid hget _
-    rw [hget'] at hget; injection hget with e; subst e
-    have hdir := hd t' (mem_of_getElem_some hget') o ho' hm
-    unfold secDirOk
-    simp only [answerSection]
-    rw [← hdir]
-    exact answer_direction_ok t' offer.media mid
-  rcases hsec with he | he
-  · rw [he]; exact hbl
-  · rw [he, zipAll_map_right secDirOk (fun s => { s with mid := [] }) (fun o s => rfl)]; exact hbl
+  apply clause_along_answer secDirOk c ts nextMid role offer a h (fun o s => rfl)
+  intro o ho t ht hm mid _
+  unfold secDirOk
+  simp only [answerSection]
+  rw [← hd t ht o ho hm]
+  exact answer_direction_ok t o
+
+/-- **answer_kinds_ok** — the kinds of the answer are the offer's, section by section, for EVERY offer
+(with or without mids, any compatibility mode, any connection state): the matching is by kind in both of
+its stages. -/
+theorem answer_kinds_ok (c : Cfg) (ts : List TrxView) (nextMid : Nat) (role : Option Bool)
+    (offer : Desc) (a : Answer) (h : answer c ts nextMid role (some offer) = .ok a) :
+    zipAll (fun o s => o.kind = s.kind) offer.media a.sections = true := by
+  apply clause_along_answer (fun o s => decide (o.kind = s.kind)) c ts nextMid role offer a h (fun o s => rfl)
+  intro o _ t _ hm mid _
+  simp [answerSection, matches_kind hm]
 
 /-- **answer_aligned_partial** — kinds and mids of the answer are the offer's, section by section, when
-every offered section carries a mid and
-the mids are not cleared (Standard mode and: BUNDLE offered or a single section). The two excluded
-situations are exactly the witnesses `answer_clears_mids_without_bundle` /
-`legacy_sip_answer_drops_offered_mids`. -/
-theorem answer_aligned_partial (c : Cfg) (ts : List TrxView) (nextMid : Nat) (hasLocal : Bool) (role : Option Bool)
-    (offer : Desc) (a : Answer) (h : answer c ts nextMid hasLocal role (some offer) = .ok a)
+every offered section carries a mid and the mids are not cleared (Standard mode and: BUNDLE offered or a
+single section). The two excluded situations are exactly the witnesses
+`answer_clears_mids_without_bundle` / `legacy_sip_answer_drops_offered_mids`. -/
+theorem answer_aligned_partial (c : Cfg) (ts : List TrxView) (nextMid : Nat) (role : Option Bool)
+    (offer : Desc) (a : Answer) (h : answer c ts nextMid role (some offer) = .ok a)
     (hmids : ∀ o ∈ offer.media, o.mid ≠ [])
     (hnc : c.legacySip = false ∧ (offeredBundle offer.session.attrs = true ∨ offer.media.length ≤ 1)) :
     zipAll secAligned offer.media a.sections = true := by
-  obtain ⟨order, ho, _, hkeep⟩ := answer_sections c ts nextMid hasLocal role offer a h
+  obtain ⟨order, ho, _, hkeep⟩ := answer_sections c ts nextMid role offer a h
   obtain ⟨tail, ht, hal⟩ := answerOrder_matches ts offer.media [] [] order ho
   simp only [List.reverse_nil, List.nil_append] at ht
   subst ht
   have hv := Answer.answerOrder_valid _ _ _ _ _ (by intro p hp; cases hp) ho
   rw [hkeep hnc]
-  apply zipAll_buildList _ _ _ _ _ secAligned _ _ _ hv
+  apply zipAll_buildList _ _ _ secAligned _ _ _ hv
   refine hal.imp ?_
   intro o p ho' _ ⟨_, t', hget', hm⟩ t mid hget hmid
   rw [hget'] at hget; injection hget with e; subst e
-  have hkind := kind_synced ts offer t' (mem_of_getElem_some hget') o ho' hm
   have hmid' : mid = o.mid := by
-    rcases hm with ⟨_, htm⟩ | ⟨hem, _⟩
-    · exact hmid _ htm.1
+    rcases hm with ⟨_, htm, _⟩ | ⟨hem, _⟩
+    · exact hmid _ htm
     · exact absurd hem (hmids o ho')
   unfold secAligned
-  simp [answerSection, hkind, hmid']
+  simp [answerSection, matches_kind hm, hmid']
 
-/-- **answer_valid_core_partial** — the clauses of `validAnswer` that do not concern codecs / RTX /
-extension ids, together, under the named hypotheses: count, kinds, mids, rtcp-mux, direction. -/
-theorem answer_valid_core_partial (c : Cfg) (ts : List TrxView) (nextMid : Nat) (hasLocal : Bool) (role : Option Bool)
-    (offer : Desc) (a : Answer) (h : answer c ts nextMid hasLocal role (some offer) = .ok a)
-    (hmids : ∀ o ∈ offer.media, o.mid ≠ []) (hd : DirSynced ts offer)
-    (hnc : c.legacySip = false ∧ (offeredBundle offer.session.attrs = true ∨ offer.media.length ≤ 1)) :
-    a.sections.length = offer.media.length ∧ zipAll secAligned offer.media a.sections = true ∧
-    zipAll secMuxOk offer.media a.sections = true ∧ zipAll secDirOk offer.media a.sections = true :=
-  ⟨answer_count c ts nextMid hasLocal role offer a h,
-   answer_aligned_partial c ts nextMid hasLocal role offer a h hmids hnc,
-   answer_mux_ok_desc c ts nextMid hasLocal role offer a h,
-   answer_direction_ok_desc c ts nextMid hasLocal role offer a h hd⟩
+/-! ### codecs, RTX, extensions: the offered section that is consulted is the answered one -/
 
-/-- the hypotheses are satisfiable by a non-trivial instance (the BUNDLE offer of the example below) -/
-example : KindSynced [trx .audio "0", trx .video "1"] bundleOffer ∧ DirSynced [trx .audio "0", trx .video "1"] bundleOffer ∧
-    (∀ o ∈ bundleOffer.media, o.mid ≠ []) ∧ offeredBundle bundleOffer.session.attrs = true := by
-  refine ⟨?_, ?_, by decide, by decide⟩
-  · intro t ht o ho hm
-    simp only [bundleOffer, mkOffer, List.mem_cons, List.mem_nil_iff, or_false] at ht ho
-    rcases ht with rfl | rfl <;> rcases ho with rfl | rfl <;> first | rfl | (exfalso; revert hm; unfold Matches; decide)
-  · intro t ht o ho hm
-    simp only [bundleOffer, mkOffer, List.mem_cons, List.mem_nil_iff, or_false] at ht ho
-    rcases ht with rfl | rfl <;> rcases ho with rfl | rfl <;> rfl
+/-- **answer_rtx_ok** — RTX strip and echo: every `apt=` association in the codec part of a VIDEO answer
+section is an association of the offered section it answers; RTX injected by the local configuration is
+always stripped first. All configurations and offers (with or without mids). -/
+theorem answer_rtx_ok (c : Cfg) (o : Media) (q : Nat × Nat)
+    (h : q ∈ aptMap (codecPart c .video o).2) : q ∈ aptMap o.attrs :=
+  video_rtx_echo_offered c o q h
 
-/-! ### codecs: the two places where the offer IS consulted -/
-
-/-- **answer_rtx_ok** — RTX strip and echo: every `apt=` association of an answered VIDEO section is an
-association of the remote section `merge_remote_rtx_into_answer` consults (`rtxSource`: the section with
-that mid, else the first video section); RTX injected by the local configuration is always stripped
-first. All configurations and offers. (For offers whose sections carry distinct mids the consulted
-section is the answered one; for mid-less offers it can be another — known finding `ans:rtx:*`.) -/
-theorem answer_rtx_ok (c : Cfg) (remote : List Media) (hasLocal : Bool) (mid : Str) (q : Nat × Nat)
-    (h : q ∈ aptMap (codecPart c .video remote hasLocal mid).2) :
-    ∃ r, rtxSource remote mid = some r ∧ q ∈ aptMap r.attrs :=
-  video_rtx_echo_offered c remote hasLocal mid q h
-
-/-- **answer_audio_reinvite_pts_offered** — the re-negotiation audio path (a local description exists
-and the capability intersection is non-empty): every answered audio format is a format of the offered
-audio section that was consulted. (`hcanon`: the offer writes payload types canonically, e.g. `8`
-not `08`.) First negotiations and video never take this path — `first_answer_ignores_offer_codecs`. -/
-theorem answer_audio_reinvite_pts_offered (c : Cfg) (remote : List Media) (hasLocal : Bool) (mid : Str)
-    (caps : List ACap) (h : reinviteAudioCaps c remote hasLocal mid = some caps)
-    (hcanon : ∀ r ∈ remote, ∀ f ∈ r.formats, ∀ n, parseU8 f = some n → natStr n = f) :
-    ∃ r ∈ remote, r.kind = .audio ∧ (mid = [] ∨ r.mid = mid) ∧
-      ∀ f ∈ (codecPart c .audio remote hasLocal mid).1, f ∈ r.formats :=
-  reinvite_audio_formats_offered c remote hasLocal mid caps h hcanon
+/-- **answer_audio_pts_offered** — audio, whenever the offered section and the local configuration have a
+codec in common (first and subsequent negotiations): every answered format is a format of the offered
+section being answered. (`hcanon`: the offer writes payload types canonically, e.g. `8` not `08`.)
+Without a common codec the local list is answered — `first_answer_ignores_offer_codecs`; video is never
+intersected. -/
+theorem answer_audio_pts_offered (c : Cfg) (o : Media)
+    (caps : List ACap) (h : reinviteAudioCaps c o = some caps)
+    (hcanon : ∀ f ∈ o.formats, ∀ n, parseU8 f = some n → natStr n = f) :
+    ∀ f ∈ (codecPart c .audio o).1, f ∈ o.formats :=
+  audio_formats_offered c o caps h hcanon
 
 def pcmaOpus109 : Media :=
   { kind := .audio, mid := "0".toList, port := 9, proto := "UDP/TLS/RTP/SAVPF".toList,
@@ -617,43 +601,21 @@ def pcmaOpus109 : Media :=
 
 def cfgOpusPcmu : Cfg := { cfgDefault with audio := [defaultACap, ⟨0, "PCMU".toList, 8000, 1, none, []⟩] }
 
-/-- non-vacuity: a re-negotiation where the intersection is taken (offer PCMA + opus/109, local opus +
-PCMU): the answer lists `109` only — the offered payload type, not the local `111`. -/
-example : (codecPart cfgOpusPcmu .audio [pcmaOpus109] true "0".toList).1 = ["109".toList] ∧
-    (reinviteAudioCaps cfgOpusPcmu [pcmaOpus109] true "0".toList).isSome = true := by decide
+/-- non-vacuity: the intersection is taken (offer PCMA + opus/109, local opus + PCMU): the answer lists
+`109` only — the offered payload type, not the local `111`. -/
+example : (codecPart cfgOpusPcmu .audio pcmaOpus109).1 = ["109".toList] ∧
+    (reinviteAudioCaps cfgOpusPcmu pcmaOpus109).isSome = true := by decide
 
-/-! ### the combined partial theorem -/
-
-/-- the offered sections carry pairwise different mids -/
-def DistinctMids (offer : Desc) : Prop := offer.media.Pairwise (fun x y => x.mid ≠ y.mid)
-
-/-- with pairwise different mids, looking a section up by its own mid finds that section — the
-consulted section of `answer_extmap_ok` / `answer_rtx_ok` is then the answered one -/
-theorem find_own_mid (l : List Media) (hd : l.Pairwise (fun x y => x.mid ≠ y.mid)) (o : Media) (ho : o ∈ l) :
-    l.find? (fun s => s.mid = o.mid) = some o := by
-  induction l with
-  | nil => cases ho
-  | cons x rest ih =>
-    obtain ⟨hx, hrest⟩ := List.pairwise_cons.mp hd
-    rcases List.mem_cons.mp ho with rfl | ho'
-    · simp
-    · have hne : x.mid ≠ o.mid := hx o ho'
-      have hdec : decide (x.mid = o.mid) = false := decide_eq_false hne
-      simp only [List.find?_cons, hdec]
-      exact ih hrest ho'
-
-/-- the `a=fmtp` lines of an answer section are those of its codec part (header extensions, `a=setup` and
-the rtcp-mux filter do not touch them) -/
-theorem fmtp_answerSection (c : Cfg) (t : TrxView) (remote : List Media) (hasLocal : Bool) (role : Option Bool)
-    (mid : Str) (mux : Bool) :
-    attrVals (answerSection c t remote hasLocal role mid mux).attrs "fmtp" =
-      attrVals (codecPart c t.kind remote hasLocal mid).2 "fmtp" := by
+/-- (lemma) the `a=fmtp` lines of an answer section are those of its codec part (header extensions,
+`a=setup` and the rtcp-mux filter do not touch them) -/
+theorem fmtp_answerSection (c : Cfg) (t : TrxView) (o : Media) (role : Option Bool) (mid : Str) :
+    attrVals (answerSection c t o role mid).attrs "fmtp" = attrVals (codecPart c t.kind o).2 "fmtp" := by
   have hne : "fmtp".toList ≠ "rtcp-mux".toList := by decide
-  have hall : attrVals ((codecPart c t.kind remote hasLocal mid).2 ++ extmapAttrs c t.kind remote mid ++ setupAttrs c role) "fmtp" =
-      attrVals (codecPart c t.kind remote hasLocal mid).2 "fmtp" := by
+  have hall : attrVals (setupAttrs c role ++ (codecPart c t.kind o).2 ++ extmapAttrs c t.kind o) "fmtp" =
+      attrVals (codecPart c t.kind o).2 "fmtp" := by
     rw [attrVals_append, attrVals_append]
-    rw [attrVals_nil_of_keys (extmapAttrs c t.kind remote mid) "fmtp"
-      (fun a ha => by rw [extmapAttrs_key c t.kind remote mid a ha]; decide)]
+    rw [attrVals_nil_of_keys (extmapAttrs c t.kind o) "fmtp"
+      (fun a ha => by rw [extmapAttrs_key c t.kind o a ha]; decide)]
     rw [attrVals_nil_of_keys (setupAttrs c role) "fmtp" (fun a ha => by
       unfold setupAttrs at ha
       split at ha
@@ -663,77 +625,74 @@ theorem fmtp_answerSection (c : Cfg) (t : TrxView) (remote : List Media) (hasLoc
       · cases ha)]
     simp
   simp only [answerSection, capabilities]
-  cases mux with
+  cases secHasMux o with
   | true => simpa using hall
   | false =>
     simp only [Bool.false_eq_true, if_false]
     rw [attrVals_filter_other _ "fmtp" "rtcp-mux" hne]
     exact hall
 
-theorem aptMap_answerSection (c : Cfg) (t : TrxView) (remote : List Media) (hasLocal : Bool) (role : Option Bool)
-    (mid : Str) (mux : Bool) :
-    aptMap (answerSection c t remote hasLocal role mid mux).attrs = aptMap (codecPart c t.kind remote hasLocal mid).2 := by
+/-- (lemma) -/
+theorem aptMap_answerSection (c : Cfg) (t : TrxView) (o : Media) (role : Option Bool) (mid : Str) :
+    aptMap (answerSection c t o role mid).attrs = aptMap (codecPart c t.kind o).2 := by
   unfold aptMap
   rw [fmtp_answerSection]
 
-/-- **answer_rtx_ok_distinct** — the property's RTX clause for the ANSWERED section: when the offered
-sections carry pairwise different mids, every `apt=` association of the video answer section built for
-the offered section `o` is an association `o` itself offered. -/
-theorem answer_rtx_ok_distinct (c : Cfg) (t : TrxView) (offer : Desc) (hasLocal : Bool) (role : Option Bool) (mux : Bool)
-    (hd : DistinctMids offer) (o : Media) (ho : o ∈ offer.media) (hk : t.kind = .video) :
-    secRtxOk o (answerSection c t offer.media hasLocal role o.mid mux) = true := by
+/-- **answer_rtx_ok_section** — the property's RTX clause for the ANSWERED section: every `apt=` association
+of the video answer section built for the offered section `o` is an association `o` itself offered. Every
+offer (mids or not). -/
+theorem answer_rtx_ok_section (c : Cfg) (t : TrxView) (o : Media) (role : Option Bool) (mid : Str)
+    (hk : t.kind = .video) :
+    secRtxOk o (answerSection c t o role mid) = true := by
   unfold secRtxOk
   rw [aptMap_answerSection, List.all_eq_true]
   intro q hq
   rw [hk] at hq
-  obtain ⟨r, hr, hq'⟩ := answer_rtx_ok c offer.media hasLocal o.mid q hq
-  unfold rtxSource at hr
-  rw [find_own_mid offer.media hd o ho] at hr
-  injection hr with hr
-  subst hr
-  simpa using hq'
+  simpa using answer_rtx_ok c o q hq
 
-/-- **answer_ext_ok_distinct** — the property's extension clause for the ANSWERED section ("only offered
-ids, no duplicate ids"): pairwise different mids and an offered section whose own extension lines are
-well formed for the echo (`ExtWF`: its ids pairwise distinct, no line naming two of the probed URIs). -/
-theorem answer_ext_ok_distinct (c : Cfg) (t : TrxView) (offer : Desc) (hasLocal : Bool) (role : Option Bool) (mux : Bool)
-    (hd : DistinctMids offer) (o : Media) (ho : o ∈ offer.media) (hwf : ExtWF o) :
-    secExtOk o (answerSection c t offer.media hasLocal role o.mid mux) = true := by
-  have hf := find_own_mid offer.media hd o ho
-  unfold secExtOk
-  rw [Bool.and_eq_true]
-  refine ⟨?_, ?_⟩
-  · rw [List.all_eq_true]
-    intro i hi
-    obtain ⟨r, hr, hir⟩ := answer_extmap_ids_offered c t offer.media hasLocal role o.mid mux i hi
-    rw [hf] at hr; injection hr with hr; subst hr
-    simpa using hir
-  · exact decide_eq_true (answer_extmap_nodup c t offer.media hasLocal role o.mid mux o hf hwf)
+/-- the offer writes payload types canonically (`8`, not `08` or `+8`) -/
+def Canon (offer : Desc) : Prop := ∀ o ∈ offer.media, ∀ f ∈ o.formats, ∀ n, parseU8 f = some n → natStr n = f
 
-/-- what the local configuration selects for the offered section `o`: the formats of the answer section
-built for `o` -/
-def selectedFormats (c : Cfg) (offer : Desc) (hasLocal : Bool) (o : Media) : List Str :=
-  (codecPart c o.kind offer.media hasLocal o.mid).1
+/-- **answer_audio_pts_ok** — the property's payload-type clause for an AUDIO section whose offer shares a
+codec with the local configuration: only offered payload types. Every offer (mids or not), first and
+subsequent negotiations. -/
+theorem answer_audio_pts_ok (c : Cfg) (t : TrxView) (o : Media) (role : Option Bool) (mid : Str)
+    (hk : t.kind = .audio) (hcommon : (reinviteAudioCaps c o).isSome = true)
+    (hcanon : ∀ f ∈ o.formats, ∀ n, parseU8 f = some n → natStr n = f) :
+    secPtsOk o (answerSection c t o role mid) = true := by
+  obtain ⟨caps, hcaps⟩ := Option.isSome_iff_exists.mp hcommon
+  unfold secPtsOk
+  rw [List.all_eq_true]
+  intro f hf
+  have : f ∈ (codecPart c .audio o).1 := by
+    simp only [answerSection, capabilities, hk] at hf
+    exact hf
+  simpa using answer_audio_pts_offered c o caps hcaps hcanon f this
 
-/-- **the missing feature, as a hypothesis**: for every offered section the locally selected payload
-types lie within what that section offered. Decidable; false e.g. for the PCMU-only offer of
-`first_answer_ignores_offer_codecs`. It is the ONLY hypothesis of `answer_valid_partial` that restates a
-clause of the conclusion; the code ensures it for audio when a common codec exists
-(`answer_audio_reinvite_pts_offered`) and never for video. -/
-def PtsWithinOffer (c : Cfg) (offer : Desc) (hasLocal : Bool) : Prop :=
-  ∀ o ∈ offer.media, ∀ f ∈ selectedFormats c offer hasLocal o, f ∈ o.formats
+/-! ### the combined partial theorem -/
+
+/-- **the missing feature, as a hypothesis**: for every offered section that is NOT an audio section sharing
+a codec with the local configuration (i.e. video, image, data, and audio without a common codec) the
+locally selected formats lie within what that section offered. Decidable; false e.g. for the PCMU-only
+offer of `first_answer_ignores_offer_codecs`. It is the ONLY hypothesis of `answer_valid_partial` that
+restates (part of) a clause of the conclusion: for audio with a common codec the clause is PROVED
+(`answer_audio_pts_ok`). -/
+def PtsWithinOffer (c : Cfg) (offer : Desc) : Prop :=
+  ∀ o ∈ offer.media, ¬ (o.kind = .audio ∧ (reinviteAudioCaps c o).isSome = true) →
+    ∀ f ∈ (codecPart c o.kind o).1, f ∈ o.formats
 
 /-- the codec part of a non-video section carries no `apt=` parameter (a configured audio `fmtp` such as
 `"apt=96"` would be read as an RTX association by the peer). Decidable; a condition on the configuration
 and, for the echoed `telephone-event` fmtp, on the offer. -/
-def NonVideoNoApt (c : Cfg) (offer : Desc) (hasLocal : Bool) : Prop :=
-  ∀ o ∈ offer.media, o.kind ≠ .video → aptMap (codecPart c o.kind offer.media hasLocal o.mid).2 = []
+def NonVideoNoApt (c : Cfg) (offer : Desc) : Prop :=
+  ∀ o ∈ offer.media, o.kind ≠ .video → aptMap (codecPart c o.kind o).2 = []
 
-/-- the DTLS role the connection holds was derived (`RtcModel.Jsep.roleOfSetup`, the function the C09
-driver compares with `set_remote_description`) from the `a=setup` value `v` that every section of THIS
-offer carries, at media or session level. Fails for re-offers that change the role, for offers whose
-sections differ, and for session-level-only `a=setup` (the derivation reads media-level attributes):
-witnesses `sticky_role_answers_offerers_own_role`, `session_level_setup_is_not_read`. -/
+/-- a STATE hypothesis: the DTLS role the connection holds was derived (`RtcModel.Jsep.roleOfSetup`, the
+function the C09 driver compares with `set_remote_description`) from the `a=setup` value `v` that every
+section of THIS offer carries, at media or session level. Fails for re-offers that change the role after
+the DTLS transport exists and for offers whose sections differ: witnesses
+`sticky_role_answers_offerers_own_role`, `sections_with_differing_setup_get_one_role`. There is
+no composed theorem with the C09 model's `deriveRole` (different record types). -/
 def RoleDerived (c : Cfg) (role : Option Bool) (offer : Desc) : Prop :=
   c.mode = .webrtc → ∃ v, role = some (RtcModel.Jsep.roleOfSetup v) ∧
     ∀ o ∈ offer.media, offeredSetup offer.session.attrs o = some v
@@ -743,42 +702,75 @@ fails the answer still bundles every section — witness `partial_bundle_group_a
 def GroupListsMids (offer : Desc) : Prop :=
   ∀ og, offerGroup offer.session.attrs = some og → ∀ o ∈ offer.media, o.mid ∈ groupMids og
 
+/-- (lemma) -/
 theorem setupValue_side (role : Option Bool) :
     setupCompatible none (setupValue role) = true := by
   cases role with
   | none => decide
   | some b => cases b <;> decide
 
+/-- **answer_valid_core** — the clauses of `validAnswer` that hold for every offer the stack answers, with
+no hypothesis on mids: count, kinds, rtcp-mux; and under the state hypothesis `DirSynced`, direction. -/
+theorem answer_valid_core (c : Cfg) (ts : List TrxView) (nextMid : Nat) (role : Option Bool)
+    (offer : Desc) (a : Answer) (h : answer c ts nextMid role (some offer) = .ok a) :
+    a.sections.length = offer.media.length ∧
+    zipAll (fun o s => o.kind = s.kind) offer.media a.sections = true ∧
+    zipAll secMuxOk offer.media a.sections = true ∧
+    (DirSynced ts offer → zipAll secDirOk offer.media a.sections = true) :=
+  ⟨answer_count c ts nextMid role offer a h, answer_kinds_ok c ts nextMid role offer a h,
+   answer_mux_ok_desc c ts nextMid role offer a h, answer_direction_ok_desc c ts nextMid role offer a h⟩
+
+/-- **answer_section_clauses** — for EVERY offer (mid-less ones included) and every state: the RTX clause on
+video sections and the extension-id clause (offered ids only, no duplicates, given `ExtWF` of the offered
+sections) hold along the whole answer. Since the round-3 fix the section consulted is the section
+answered, so no hypothesis on mids is needed. -/
+theorem answer_section_clauses (c : Cfg) (ts : List TrxView) (nextMid : Nat) (role : Option Bool)
+    (offer : Desc) (a : Answer) (h : answer c ts nextMid role (some offer) = .ok a)
+    (hext : ∀ o ∈ offer.media, ExtWF o) :
+    zipAll secExtOk offer.media a.sections = true ∧
+    zipAll (fun o s => o.kind != .video || secRtxOk o s) offer.media a.sections = true := by
+  refine ⟨?_, ?_⟩
+  · apply clause_along_answer secExtOk c ts nextMid role offer a h (fun o s => rfl)
+    intro o ho t _ _ mid _
+    exact answer_ext_ok c t o role mid (hext o ho)
+  · apply clause_along_answer (fun o s => o.kind != .video || secRtxOk o s) c ts nextMid role offer a h (fun o s => rfl)
+    intro o _ t _ hm mid _
+    by_cases hv : o.kind = .video
+    · have hk : t.kind = .video := by rw [matches_kind hm]; exact hv
+      rw [answer_rtx_ok_section c t o role mid hk, Bool.or_true]
+    · have : (o.kind != Kind.video) = true := bne_iff_ne.mpr hv
+      rw [this, Bool.true_or]
+
 /-- **answer_valid_partial** — `validAnswer offer a` for every answer the model produces, under named
-hypotheses none of which (except `PtsWithinOffer`) restates a clause of the conclusion:
-every offered section carries a white-space free, non-empty mid and the mids are pairwise different;
-the offered extension lines are well formed (`ExtWF`); the matched transceivers have the offered
-directions (`DirSynced` — what a first `set_remote_description` establishes, C09
-`first_offer_syncs_transceivers`); Standard mode with BUNDLE offered or a single section (mids not
-cleared); the role was derived from this offer's uniform `a=setup` (`RoleDerived`); the offer's group
-lists its mids; non-video codec parts carry no `apt=`; and `PtsWithinOffer` — the part the code does NOT
-ensure. The RTX, extension-id (incl. no duplicates) and setup clauses are DERIVED here
-(`answer_rtx_ok_distinct`, `answer_ext_ok_distinct`, `answer_setup_complements`). -/
-theorem answer_valid_partial (c : Cfg) (ts : List TrxView) (nextMid : Nat) (hasLocal : Bool) (role : Option Bool)
-    (offer : Desc) (a : Answer) (h : answer c ts nextMid hasLocal role (some offer) = .ok a)
-    (hmids : ∀ o ∈ offer.media, IsTok o.mid) (hdist : DistinctMids offer) (hext : ∀ o ∈ offer.media, ExtWF o)
+hypotheses: every offered section carries a white-space free, non-empty mid (needed for the mids / BUNDLE
+clauses only); the offered extension lines are well formed (`ExtWF`); payload types are written
+canonically (`Canon`); the matched transceivers have the offered directions (`DirSynced` — what a first
+`set_remote_description` establishes, C09 `first_offer_syncs_transceivers`); Standard mode with BUNDLE
+offered or a single section (mids not cleared); the role was derived from this offer's uniform `a=setup`
+(`RoleDerived`, a state hypothesis); the offer's group lists its mids; non-video codec parts carry no
+`apt=`; and `PtsWithinOffer` — the part the code does NOT ensure (video / image / no common audio codec).
+PROVED inside: kinds, rtcp-mux, RTX, extension ids (offered, no duplicates), audio payload types when a
+codec is shared; setup follows from the assumed role. -/
+theorem answer_valid_partial (c : Cfg) (ts : List TrxView) (nextMid : Nat) (role : Option Bool)
+    (offer : Desc) (a : Answer) (h : answer c ts nextMid role (some offer) = .ok a)
+    (hmids : ∀ o ∈ offer.media, IsTok o.mid) (hext : ∀ o ∈ offer.media, ExtWF o) (hcanon : Canon offer)
     (hd : DirSynced ts offer)
     (hnc : c.legacySip = false ∧ (offeredBundle offer.session.attrs = true ∨ offer.media.length ≤ 1))
-    (hrole : RoleDerived c role offer) (hgrp : GroupListsMids offer) (hapt : NonVideoNoApt c offer hasLocal)
-    (hsel : PtsWithinOffer c offer hasLocal) :
+    (hrole : RoleDerived c role offer) (hgrp : GroupListsMids offer) (hapt : NonVideoNoApt c offer)
+    (hsel : PtsWithinOffer c offer) :
     validAnswer offer a = true := by
   have hne : ∀ o ∈ offer.media, o.mid ≠ [] := fun o ho => (hmids o ho).1
-  obtain ⟨order, ho, _, hkeep⟩ := answer_sections c ts nextMid hasLocal role offer a h
+  obtain ⟨order, ho, _, hkeep⟩ := answer_sections c ts nextMid role offer a h
   obtain ⟨tail, ht, hal⟩ := answerOrder_matches ts offer.media [] [] order ho
   simp only [List.reverse_nil, List.nil_append] at ht
   subst ht
   have hv := Answer.answerOrder_valid _ _ _ _ _ (by intro p hp; cases hp) ho
   have hsecs := hkeep hnc
   -- the setup an answer section carries fits the offered one (media or session level)
-  have hsetup : ∀ o ∈ offer.media, ∀ (t : TrxView) (mux : Bool),
-      secSetupOk o (answerSection c t offer.media hasLocal role o.mid mux) = true ∧
-      secSetupOkS offer.session.attrs o (answerSection c t offer.media hasLocal role o.mid mux) = true := by
-    intro o ho' t mux
+  have hsetup : ∀ o ∈ offer.media, ∀ (t : TrxView) (mid : Str),
+      secSetupOk o (answerSection c t o role mid) = true ∧
+      secSetupOkS offer.session.attrs o (answerSection c t o role mid) = true := by
+    intro o ho' t mid
     unfold secSetupOk secSetupOkS
     rw [setupOf_answerSection]
     by_cases hw : c.mode = .webrtc
@@ -802,49 +794,51 @@ theorem answer_valid_partial (c : Cfg) (ts : List TrxView) (nextMid : Nat) (hasL
   -- all per-section clauses at once
   have hall : zipAll (fun o s => secValid o s && secSetupOkS offer.session.attrs o s) offer.media a.sections = true := by
     rw [hsecs]
-    apply zipAll_buildList _ _ _ _ _ (fun o s => secValid o s && secSetupOkS offer.session.attrs o s) _ _ _ hv
+    apply zipAll_buildList _ _ _ (fun o s => secValid o s && secSetupOkS offer.session.attrs o s) _ _ _ hv
     refine hal.imp ?_
-    intro o p ho' _ ⟨hflag, t', hget', hm⟩ t mid hget hmid
+    intro o p ho' _ ⟨hpo, t', hget', hm⟩ t mid hget hmid
     rw [hget'] at hget; injection hget with e; subst e
-    have hkind := kind_synced ts offer t' (mem_of_getElem_some hget') o ho' hm
+    rw [hpo]
+    have hkind := matches_kind hm
     have hdir := hd t' (mem_of_getElem_some hget') o ho' hm
     have hmid' : mid = o.mid := by
-      rcases hm with ⟨_, htm⟩ | ⟨hem, _⟩
-      · exact hmid _ htm.1
+      rcases hm with ⟨_, htm, _⟩ | ⟨hem, _⟩
+      · exact hmid _ htm
       · exact absurd hem (hne o ho')
     subst hmid'
-    have e1 : secAligned o (answerSection c t' offer.media hasLocal role o.mid p.2) = true := by
+    have e1 : secAligned o (answerSection c t' o role o.mid) = true := by
       simp [secAligned, answerSection, hkind]
-    have e2 : secPtsOk o (answerSection c t' offer.media hasLocal role o.mid p.2) = true := by
-      unfold secPtsOk
-      rw [List.all_eq_true]
-      intro f hf
-      have : f ∈ selectedFormats c offer hasLocal o := by
-        simp only [answerSection, capabilities, hkind] at hf
-        exact hf
-      simpa using hsel o ho' f this
-    have e3 : secRtxOk o (answerSection c t' offer.media hasLocal role o.mid p.2) = true := by
+    have e2 : secPtsOk o (answerSection c t' o role o.mid) = true := by
+      by_cases hac : o.kind = .audio ∧ (reinviteAudioCaps c o).isSome = true
+      · exact answer_audio_pts_ok c t' o role o.mid (by rw [hkind]; exact hac.1) hac.2 (hcanon o ho')
+      · unfold secPtsOk
+        rw [List.all_eq_true]
+        intro f hf
+        have : f ∈ (codecPart c o.kind o).1 := by
+          simp only [answerSection, capabilities, hkind] at hf
+          exact hf
+        simpa using hsel o ho' hac f this
+    have e3 : secRtxOk o (answerSection c t' o role o.mid) = true := by
       by_cases hvid : t'.kind = .video
-      · exact answer_rtx_ok_distinct c t' offer hasLocal role p.2 hdist o ho' hvid
+      · exact answer_rtx_ok_section c t' o role o.mid hvid
       · unfold secRtxOk
         rw [aptMap_answerSection, hkind, hapt o ho' (by rw [← hkind]; exact hvid)]
         rfl
-    have e4 : secExtOk o (answerSection c t' offer.media hasLocal role o.mid p.2) = true :=
-      answer_ext_ok_distinct c t' offer hasLocal role p.2 hdist o ho' (hext o ho')
-    have e5 : secMuxOk o (answerSection c t' offer.media hasLocal role o.mid p.2) = true := by
+    have e4 : secExtOk o (answerSection c t' o role o.mid) = true :=
+      answer_ext_ok c t' o role o.mid (hext o ho')
+    have e5 : secMuxOk o (answerSection c t' o role o.mid) = true := by
       unfold secMuxOk
-      cases hp : p.2 with
-      | false => rw [answer_mux_ok c t' offer.media hasLocal role o.mid]; rfl
+      cases hmx : secHasMux o with
+      | false => rw [answer_mux_ok c t' o role o.mid hmx]; rfl
       | true =>
-        rw [hp] at hflag
-        have e : hasAttr o "rtcp-mux" = true := hflag.symm
+        have e : hasAttr o "rtcp-mux" = true := hmx
         rw [e, Bool.or_true]
-    have e6 : secDirOk o (answerSection c t' offer.media hasLocal role o.mid p.2) = true := by
+    have e6 : secDirOk o (answerSection c t' o role o.mid) = true := by
       unfold secDirOk
       simp only [answerSection]
       rw [← hdir]
-      exact answer_direction_ok t' offer.media o.mid
-    obtain ⟨e7, e8⟩ := hsetup o ho' t' p.2
+      exact answer_direction_ok t' o
+    obtain ⟨e7, e8⟩ := hsetup o ho' t' o.mid
     show (secValid o _ && secSetupOkS offer.session.attrs o _) = true
     unfold secValid
     rw [e1, e2, e3, e4, e5, e6, e7, e8]
@@ -858,13 +852,13 @@ theorem answer_valid_partial (c : Cfg) (ts : List TrxView) (nextMid : Nat) (hasL
     | none => rfl
     | some g =>
       dsimp only
-      obtain ⟨hob, _⟩ := answer_bundle_ok c ts nextMid hasLocal role offer a g h hg
+      obtain ⟨hob, _⟩ := answer_bundle_ok c ts nextMid role offer a g h hg
       obtain ⟨og, hog⟩ := offerGroup_of_offered _ hob
       rw [hog]
       dsimp only
       -- the group value lists the answer's mids = the offer's mids
       have halign : zipAll secAligned offer.media a.sections = true :=
-        answer_aligned_partial c ts nextMid hasLocal role offer a h hne hnc
+        answer_aligned_partial c ts nextMid role offer a h hne hnc
       have hmidsEq := zipAll_aligned_mids _ _ halign
       have hgv : g = "BUNDLE ".toList ++ join sp (a.sections.map (·.mid)) ∧ a.sections ≠ [] := by
         unfold answer at h
@@ -879,7 +873,7 @@ theorem answer_valid_partial (c : Cfg) (ts : List TrxView) (nextMid : Nat) (hasL
             simp only [Bool.and_eq_true, Bool.not_eq_true'] at hc
             injection hg with hg
             have hnotclear : (!offeredBundle offer.session.attrs &&
-                decide ((buildSections c ts offer.media hasLocal role order nextMid []).length > 1)) = false := by
+                decide ((buildSections c ts role order nextMid []).length > 1)) = false := by
               rw [hob]; rfl
             simp only [hnotclear, Bool.false_eq_true, if_false]
             refine ⟨hg.symm, ?_⟩
@@ -901,12 +895,15 @@ theorem answer_valid_partial (c : Cfg) (ts : List TrxView) (nextMid : Nat) (hasL
   rw [hall1, hb, hall2]
   rfl
 
-/-- the hypotheses of `answer_valid_partial` are satisfiable by a non-trivial instance, and its
-conclusion agrees with evaluating `validAnswer` there -/
-example : PtsWithinOffer cfgDefault bundleOffer false ∧ NonVideoNoApt cfgDefault bundleOffer false ∧
-    RoleDerived cfgDefault (some false) bundleOffer ∧ DistinctMids bundleOffer ∧ (∀ o ∈ bundleOffer.media, ExtWF o) ∧
-    GroupListsMids bundleOffer ∧ (∀ o ∈ bundleOffer.media, IsTok o.mid) := by
-  refine ⟨?_, ?_, ?_, by unfold DistinctMids; decide, ?_, ?_, by decide⟩
+/-- the hypotheses of `answer_valid_partial` are satisfiable by a non-trivial instance -/
+example : PtsWithinOffer cfgDefault bundleOffer ∧ NonVideoNoApt cfgDefault bundleOffer ∧ Canon bundleOffer ∧
+    RoleDerived cfgDefault (some false) bundleOffer ∧ (∀ o ∈ bundleOffer.media, ExtWF o) ∧
+    GroupListsMids bundleOffer ∧ (∀ o ∈ bundleOffer.media, IsTok o.mid) ∧
+    DirSynced [trx .audio "0", trx .video "1"] bundleOffer := by
+  refine ⟨?_, ?_, ?_, ?_, ?_, ?_, by decide, ?_⟩
+  · intro o ho
+    simp only [bundleOffer, mkOffer, List.mem_cons, List.mem_nil_iff, or_false] at ho
+    rcases ho with rfl | rfl <;> decide
   · intro o ho
     simp only [bundleOffer, mkOffer, List.mem_cons, List.mem_nil_iff, or_false] at ho
     rcases ho with rfl | rfl <;> decide
@@ -928,6 +925,9 @@ example : PtsWithinOffer cfgDefault bundleOffer false ∧ NonVideoNoApt cfgDefau
     subst this
     simp only [bundleOffer, mkOffer, List.mem_cons, List.mem_nil_iff, or_false] at ho
     rcases ho with rfl | rfl <;> decide
+  · intro t ht o ho hm
+    simp only [bundleOffer, mkOffer, List.mem_cons, List.mem_nil_iff, or_false] at ht ho
+    rcases ht with rfl | rfl <;> rcases ho with rfl | rfl <;> rfl
 
 /-- **partial_bundle_group_answered_in_full** — witness for the BUNDLE-membership clause: the offer groups
 only mid 0 (`a=group:BUNDLE 0`, sections 0 and 1); the answer's group lists both (`BUNDLE 0 1`), i.e. it
@@ -935,24 +935,23 @@ bundles a section the offer did not propose to bundle. Replayed on the implement
 `ans:bundle:section-outside-offered-group-bundled`). -/
 theorem partial_bundle_group_answered_in_full :
     let offer := mkOffer [attr "group" "BUNDLE 0".toList] [opusSec, vp8RtxSec]
-    ∃ a, answer cfgDefault [trx .audio "0", trx .video "1"] 2 false (some false) (some offer) = .ok a ∧
+    ∃ a, answer cfgDefault [trx .audio "0", trx .video "1"] 2 (some false) (some offer) = .ok a ∧
       a.group = some "BUNDLE 0 1".toList ∧ bundleOk offer.session.attrs a = false ∧ ¬ GroupListsMids offer := by
   refine ⟨_, rfl, by decide, by decide, ?_⟩
   intro h
   have := h "BUNDLE 0".toList (by decide) vp8RtxSec (by simp [mkOffer])
   revert this; decide
 
-/-- **session_level_setup_is_not_read** — witness for the setup clause: an offer whose only `a=setup:active`
-is at session level. The role derivation reads media-level attributes only, finds none, the role stays
-unset and the answer says `a=setup:active` too — both ends active. (Known finding
-`ans:setup:active-answered-active:session-level-setup-not-read`; the derived role `none` is what the C09
-model `RtcModel.Jsep.deriveRole` gives for sections without `a=setup`.) -/
-theorem session_level_setup_is_not_read :
+/-- since the round-3 `fix:` a session-level-only `a=setup:active` yields the role `roleOfSetup "active"`
+(server) — `RtcModel.Jsep.deriveRole` reads the session level when no section carries `a=setup` — and the
+answer says `passive` (round-2 witness `session_level_setup_is_not_read`: the role stayed unset, the answer
+said `active`) -/
+example :
     let sec : Media := { pcmuOnly "0" with attrs := [flag "rtcp-mux", attr "rtpmap" "0 PCMU/8000".toList] }
     let offer := mkOffer [attr "setup" "active".toList] [sec]
-    ∃ a, answer cfgDefault [trx .audio "0"] 1 false none (some offer) = .ok a ∧
-      zipAll (secSetupOkS offer.session.attrs) offer.media a.sections = false ∧ validAnswer offer a = false := by
-  refine ⟨_, rfl, by decide, by decide⟩
+    ∃ a, answer cfgDefault [trx .audio "0"] 1 (some (RtcModel.Jsep.roleOfSetup "active".toList)) (some offer) = .ok a ∧
+      zipAll (secSetupOkS offer.session.attrs) offer.media a.sections = true := by
+  refine ⟨_, rfl, by decide⟩
 
 /-- **sections_with_differing_setup_get_one_role** — witness: sections offering `passive` and `active`; one
 DTLS role (from the FIRST `a=setup`) answers both, so the second section is answered `active` to `active`. -/
@@ -960,48 +959,18 @@ theorem sections_with_differing_setup_get_one_role :
     let s0 : Media := { pcmuOnly "0" with attrs := [flag "rtcp-mux", attr "rtpmap" "0 PCMU/8000".toList, attr "setup" "passive".toList] }
     let s1 : Media := { pcmuOnly "1" with attrs := [flag "rtcp-mux", attr "rtpmap" "0 PCMU/8000".toList, attr "setup" "active".toList] }
     let offer := mkOffer [attr "group" "BUNDLE 0 1".toList] [s0, s1]
-    ∃ a, answer cfgDefault [trx .audio "0", trx .audio "1"] 2 false (some (RtcModel.Jsep.roleOfSetup "passive".toList))
+    ∃ a, answer cfgDefault [trx .audio "0", trx .audio "1"] 2 (some (RtcModel.Jsep.roleOfSetup "passive".toList))
         (some offer) = .ok a ∧ zipAll secSetupOk offer.media a.sections = false := by
   refine ⟨_, rfl, by decide⟩
 
-/-- **offered_payload_type_rebound** — reported separately from `validAnswer` (bit `cb` of the `valid`
-stream): the offer binds payload type 96 to H264, the default configuration answers `96 VP8/90000`. Every
-answered NUMBER was offered (`secPtsOk`), the codec behind it was not (`secBindOk`). -/
+/-- **offered_payload_type_rebound** — NOT a clause of the property (the text speaks of payload type
+numbers); counted by the harness (`pt_rebound_*`) and reported as bit `cb` of the `valid` stream: the offer
+binds payload type 96 to H264, the default configuration answers `96 VP8/90000`. -/
 theorem offered_payload_type_rebound :
     let o : Media := { vp8Sec "0" [] with attrs := [flag "rtcp-mux", attr "rtpmap" "96 H264/90000".toList] }
-    ∃ a, answer cfgDefault [trx .video "0"] 1 false (some false) (some (mkOffer [] [o])) = .ok a ∧
+    ∃ a, answer cfgDefault [trx .video "0"] 1 (some false) (some (mkOffer [] [o])) = .ok a ∧
       zipAll secPtsOk [o] a.sections = true ∧ zipAll secBindOk [o] a.sections = false := by
   refine ⟨_, rfl, by decide, by decide⟩
-
-/-- **Witness about superseded code** (before the round-2 `fix:` "create_answer matches a transceiver by MID
-only if it is of the section's kind"): a data-channel transceiver that carries the locally assigned mid `0`
-was chosen for the offered VIDEO section with mid `0`; the current matching picks the video transceiver. -/
-theorem legacy_mid_match_ignores_kind :
-    Legacy.answerOrder [trx .application "0", trx .video "0"] [vp8Sec "0" []] [] [] = some [(0, true)] ∧
-    answerOrder [trx .application "0", trx .video "0"] [vp8Sec "0" []] [] [] = some [(1, true)] := by decide
-
-/-- **answer_kinds_ok** — the kinds of the answer are the offer's, section by section, for EVERY offer
-(with or without mids, any compatibility mode, any connection state) — FULL since the round-2 fix: the
-matching is by kind in both of its stages (`kind_synced`). -/
-theorem answer_kinds_ok (c : Cfg) (ts : List TrxView) (nextMid : Nat) (hasLocal : Bool) (role : Option Bool)
-    (offer : Desc) (a : Answer) (h : answer c ts nextMid hasLocal role (some offer) = .ok a)
-    :
-    zipAll (fun o s => o.kind = s.kind) offer.media a.sections = true := by
-  obtain ⟨order, ho, hsec, _⟩ := answer_sections c ts nextMid hasLocal role offer a h
-  obtain ⟨tail, ht, hal⟩ := answerOrder_matches ts offer.media [] [] order ho
-  simp only [List.reverse_nil, List.nil_append] at ht
-  subst ht
-  have hv := Answer.answerOrder_valid _ _ _ _ _ (by intro p hp; cases hp) ho
-  have hbl : zipAll (fun o s => o.kind = s.kind) offer.media (buildList c ts offer.media hasLocal role order nextMid) = true := by
-    apply zipAll_buildList _ _ _ _ _ (fun o s => o.kind = s.kind) _ _ _ hv
-    refine hal.imp ?_
-    intro o p ho' _ ⟨_, t', hget', hm⟩ t mid hget _
-    rw [hget'] at hget; injection hget with e; subst e
-    have hkind := kind_synced ts offer t' (mem_of_getElem_some hget') o ho' hm
-    simp [answerSection, hkind]
-  rcases hsec with he | he
-  · rw [he]; exact hbl
-  · rw [he, zipAll_map_right (fun o s => decide (o.kind = s.kind)) (fun s => { s with mid := [] }) (fun o s => rfl)]; exact hbl
 
 /-! ### SDP text -/
 
@@ -1135,5 +1104,18 @@ is its counterexample. Known finding `rt:differs:session:malformed-colon-prefix`
 theorem parsed_description_need_not_round_trip :
     ∃ d d2, parseText colonPrefixText = .ok d ∧ ¬ WF d ∧ parseText (printText (print d)) = .ok d2 ∧ d2 ≠ d := by
   refine ⟨_, _, rfl, by decide, rfl, by decide⟩
+
+/-- an offer text whose only direction attribute is at session level -/
+def sessionInactiveText : Str := "v=0\r\no=- 1 2 IN IP4 h\r\ns=-\r\nt=0 0\r\na=inactive\r\nm=audio 9 RTP/AVP 0\r\n".toList
+
+/-- **session_level_direction_is_not_read** — witness (direction clause, RFC 8866 §6.7: a session-level
+`a=inactive` applies to every section without a direction of its own): the parser keeps the attribute in
+the session part and gives the section the default `sendrecv`; nothing later reads the session-level
+attribute, the transceiver is set to `sendrecv` and the section is answered `sendrecv`. Replayed on the
+implementation (known finding `ans:direction:session-level-direction-not-read:*`). -/
+theorem session_level_direction_is_not_read :
+    ∃ d, parseText sessionInactiveText = .ok d ∧
+      d.session.attrs = [flag "inactive"] ∧ d.media.map (·.dir) = [Dir.sendrecv] := by
+  refine ⟨_, rfl, by decide, by decide⟩
 
 end RtcModel.Theorems.C08
